@@ -2007,11 +2007,11 @@ void coefficient_reduce(
     // Account for the sparse operation
     switch (type) {
     case REMAINDERING_PSEUDO_DENSE:
-      if (R_deg_prev - R_deg > 1) {
-        // Multiply with the missed power of lc(B)
-        int missed = R_deg < B_deg ?
+      {
+        // Multiply with the missed power of lc(B): a remainder that became zero
+        // has skipped all the degrees down to deg(B), also when deg(B) = 0
+        int missed = (R_deg < B_deg || coefficient_is_zero(ctx, &R_tmp)) ?
             R_deg_prev - B_deg : R_deg_prev - R_deg - 1;
-        assert(missed >= 0);
         if (missed > 0) {
           coefficient_t pow;
           coefficient_construct(ctx, &pow);
